@@ -3,6 +3,7 @@
 # theorems: coq/Props/C04.v (proofs in coq/Proofs/Names*.v)
 import itertools, random, json, os
 from core import *
+from props import c04_uni
 
 ID = 'C04'
 
@@ -31,6 +32,7 @@ FUNCS = {
     2: ('Person(string, first=, middle=, prelast=, last=, lineage=)', impl_person_parts, ('T', 'S', 'S', 'S', 'S', 'S', 'S')),
     4: ('split_tex_string(s)', impl_split_space, ('T', 'S')),
     5: ("split_tex_string(s, ',')", impl_split_comma, ('T', 'S')),
+    6: ('letter class of a code point (str.isalpha/isupper/islower)', lambda a: c04_uni.py_class(a[0]), ('T', 'N')),
 }
 
 RULE = ('exhaustive_shapes: every sequence of up to N tokens over ten token classes (Capitalised, lowercase, braced, special-char upper, '
@@ -40,6 +42,9 @@ RULE = ('exhaustive_shapes: every sequence of up to N tokens over ten token clas
         'von_token_sweep: every string over {a B 1 { } \\} up to length 5 as the middle token of "Bq <tok> Bz" and as the first token of "<tok> Bz, Bq"; '
         'random: 1-7 tokens from a pool of 40 shapes, random separators (space runs, ~, "\\ ", all 29 whitespace code points), 0-4 commas; '
         'noise: random strings over {letters space ~ - { } \\ ,}; malformed: delete/duplicate/replace/truncate mutations of valid names; '
+        'unicode_shapes: every sequence of up to 3 tokens over 19 classes (Greek, Cyrillic, accented Latin upper and lower, title-case digraph, Hebrew, Arabic, CJK, Devanagari, '
+        'Arabic-Indic digit, currency sign, special characters and groups with Cyrillic/Hebrew letters, two ASCII classes) x 0..2 commas; unicode_token_sweep: every token of length <= 4 over '
+        '{Cyrillic lower, Cyrillic upper, Hebrew, Arabic-Indic digit, {, }, \\}; class_table_sweep: the letter class of every covered code point (extracted table vs str.isalpha/isupper/islower); '
         'pinned: the inputs of F1 and of every disagreement seen while building the check. '
         'distinct = distinct (function, argument); non-trivial = the model returns a person with a non-empty von or jr part, or reports too many commas, or splits into >= 2 tokens.')
 EXHAUSTIVE = {'quick': 'all token-class sequences of length <= 3 x 0..3 commas and a fixed third of those of length 4 x 0..2 commas (ten classes); all strings of length <= 5 over the 8-letter alphabet {a B space ~ , { } \\}; all middle tokens of length <= 5 over {a B 1 { } \\}',
@@ -48,18 +53,23 @@ TRUSTED_BASE = ['modelled (not verified) code: pybtex/database/__init__.py Perso
                 'split_tex_string/_find_closing_brace/BIBTEX_SPACE_RE (445-552), BibTeXString/scan_bibtex_string (96-147, 408-418)',
                 'BIBTEX_SPACE_RE and the "," separator are hand-written matchers (Model/BibtexStr.v space_run, sep_comma), compared with the live '
                 're objects through split_tex_string on the exhaustive character stream and a per-code-point sweep']
-ASSUMPTIONS = ['letter classes and case are modelled on ASCII (Base/PyChar.v); non-ASCII letters are outside the claimed domain (DESIGN.md 2.2)',
+ASSUMPTIONS = ['letter classes beyond ASCII are the static table Model/NamesUni.v (U+0080..U+052F, Hebrew, Arabic, Devanagari, U+1E00..U+21FF, kana, CJK, full-width), re-derived from the running Python and swept through the extracted model on every run; other code points and the 33 cased-but-not-alphabetic code points of these blocks (U+0345, Roman numerals U+2160..217F) are outside the claimed domain',
                'Python str.isspace / regex \\s = the 29 code points of Base/PyChar.is_space (re-measured on every run over all of Unicode)']
 PARTIAL = ['more than 100 nested braces in a token that does not start with a letter make Person() raise BibTeXError (a pybtex error, parse_name_guard, '
            'known finding FC04b, reported by the oracle): parse_name_total says "no foreign exception, no divergence" for every string, parse_name_ok gives success '
            'for every string with <= 100 opening braces',
            'the comma split split_tex_string(s, \',\') has conservation and atomicity theorems only; its exact boundaries are checked by the oracle',
-           'letter classes are ASCII in the model']
+           'code points outside the table of Model/NamesUni.v count as non-letters in the model; for the 33 cased-but-not-alphabetic code points the code itself is inconsistent '
+           '(string[0].isupper()/islower() for the first character, char.isalpha() afterwards): excluded from the domain']
 
 def describe(fn, a):
+    if fn == 6:
+        return {'function': FUNCS[fn][0], 'code_point': 'U+%04X' % a[0]}
     return {'function': FUNCS[fn][0], 'args': [S(x) for x in a]}
 
 def nontrivial(fn, a, out):
+    if fn == 6:
+        return out != 0
     if out[0] != 0:
         return False
     if fn in (1, 2):
@@ -181,6 +191,8 @@ def o_content(x):
     return ''.join(c for c in x if not c.isspace() and c not in _DROP)
 
 def oracle(fn, arg, out):
+    if fn == 6:
+        return None
     strs = [S(x) for x in arg]
     closed = all(o_profile(x)[0] for x in strs)
     if out[0] == 2:
@@ -268,7 +280,10 @@ ALPHA = 'aB ~,{}\\'
 POOL = ['Jean', 'de', 'la', 'von', 'Fontaine', '{Van}', "{\\'E}douard", "{\\'e}x", '1st', '{}', 'Jean-Paul', 'A.~B.', 'jr',
         '{\\relax van}', '\\LaTeX', "d'Aviano", '{\\a{b}', 'x\\ y', 'q\\~r', '{von der}', '{\\o}', '{\\OE}x', "{\\'{e}}", "{\\'{E}}b",
         '{A}b', '{a}B', '{{\\e}}x', '{-}x', '-x', '.Y', '{\\1a}', '{\\1A}', '{\\ab c}', '{\\ab C}', 'III', "{\\'}", '{x}{\\y Z}', 'a}b', 'M{\\"u}ller', "{\\'e"]
-PINNED = ['x ' + '{' * 101 + '}' * 101 + ' y', 'x ' + '{' * 101 + ' y', '~', '~ ~', '\\ ', ',', ',,', ',,,', '{', '}', '{\\', '{\\}', 'a,b,c,d,e', 'a,b,c\\,d', '~,~', ' , ', 'Jean {a\\b}c Last', '{a\\b}c Last, Jean',
+UNI_CLASSES = ['\u0391\u03bb\u03c6\u03b1', '\u03c6\u03bf\u03bd', '\u0418\u0432\u0430\u043d', '\u0444\u043e\u043d', '\u00c9mile', '\u00e9x', '\u01c5x',
+               '\u05d1\u05df', '\u0628\u0646', '\u738b', '\u0930\u093e\u092e', '\u0663x', '\u20acx', '{\\\'\u042d}x', '{\\\'\u044d}X', '{\u05d3}\u0431', '-\u0411x', 'Ab', 'de']
+UNI_ALPHA = ['\u0431', '\u0411', '\u05d1', '\u0663', '{', '}', '\\']
+PINNED = ['\u05d3\u05d5\u05d3 \u05d1\u05df \u05d2\u05d5\u05e8\u05d9\u05d5\u05df', 'Jean \u05d1\u05df Last', 'Jean \u0434\u0435 Last', 'Jean \u0394\u0395 Last', 'Jean \u01c5x Last', 'x ' + '{' * 101 + '}' * 101 + ' y', 'x ' + '{' * 101 + ' y', '~', '~ ~', '\\ ', ',', ',,', ',,,', '{', '}', '{\\', '{\\}', 'a,b,c,d,e', 'a,b,c\\,d', '~,~', ' , ', 'Jean {a\\b}c Last', '{a\\b}c Last, Jean',
           'Jean {ab}c Last', 'Jean {\\o} Last', '{' * 101 + 'a', 'a ' + '{' * 101 + 'a', '{' * 100 + 'a' + '}' * 100 + ' b', 'de la Fontaine', 'Jean de la Fontaine',
           'de la Fontaine, Jean', 'de la Fontaine, jr, Jean', 'Jean de', 'de', 'jean de la fontaine', 'Jean de La Fontaine du Bois Joli', 'Jean {de} la Fontaine',
           '{a{b c d', '{a{b, c', 'a{b} c}d {e', 'x\\~y z', 'x\\\\~y z', 'x\\\\ y', 'a b', 'a b　c', 'A,\\ B', '\\', 'a\\', '{\\a b} c', '{\\a, b}, c']
@@ -279,6 +294,17 @@ def _shape(classes, commas):
     for i, c in enumerate(classes):
         out.append(CLASSES[c] + str(i) + ',' * commas[i + 1])
     return ' '.join(x for x in out if x)
+
+def _uni_shapes(quick):
+    n = len(UNI_CLASSES)
+    for ntok, maxc in [(1, 2), (2, 2), (3, 2 if not quick else 1)]:
+        placements = [p for k in range(maxc + 1) for p in _comma_placements(ntok + 1, k)]
+        for classes in itertools.product(range(n), repeat=ntok):
+            for pl in placements:
+                out = [',' * pl[0]]
+                for i, c in enumerate(classes):
+                    out.append(UNI_CLASSES[c] + str(i) + ',' * pl[i + 1])
+                yield ' '.join(x for x in out if x)
 
 def _comma_placements(ngaps, k):
     for combo in itertools.combinations_with_replacement(range(ngaps), k):
@@ -320,6 +346,22 @@ def gen(tier, rng):
             yield ('von_token_sweep', 1, ['Bq ' + t + ' Bz'])
             if n <= 4:
                 yield ('von_token_sweep', 1, [t + ' Bz, Bq'])
+    # (c') letters beyond ASCII: Greek, Cyrillic, accented Latin (upper / lower), title-case, caseless scripts, non-ASCII digits and symbols
+    for classes_commas in _uni_shapes(quick):
+        yield ('unicode_shapes', 1, [classes_commas])
+    for n in range(1, 5 if quick else 6):
+        for tup in itertools.product(UNI_ALPHA, repeat=n):
+            t = ''.join(tup)
+            yield ('unicode_token_sweep', 1, ['Bq ' + t + ' Bz'])
+            if n <= 3:
+                yield ('unicode_token_sweep', 1, [t + ' Bz, Bq'])
+    for lo, hi in c04_uni.DOMAIN:
+        cps = range(lo, hi + 1) if hi - lo < 3000 else list(range(lo, lo + 64)) + [rng.randint(lo, hi) for _ in range(200)] + [hi]
+        for cp in cps:
+            if not c04_uni.excluded(cp):
+                yield ('class_table_sweep', 6, [cp])
+    for cp in range(0, 128):
+        yield ('class_table_sweep', 6, [cp])
     # (d) structured random
     def sep():
         r = rng.random()
@@ -331,7 +373,7 @@ def gen(tier, rng):
         return rng.choice(WS) + '~' + rng.choice(WS)
     def name():
         k = rng.randint(1, 7)
-        parts = [rng.choice(POOL) if rng.random() < 0.8 else rng.choice(CLASSES) for _ in range(k)]
+        parts = [rng.choice(POOL) if rng.random() < 0.7 else rng.choice(CLASSES + UNI_CLASSES) for _ in range(k)]
         ncomma = rng.choice([0, 0, 0, 1, 1, 2, 2, 3, 4])
         for _ in range(ncomma):
             parts.insert(rng.randint(0, len(parts)), ',')
@@ -376,6 +418,14 @@ def gen(tier, rng):
         yield ('nesting', 1, ['a' + '{' * d + 'x' + '}' * d + ' Bz'])
 
 def extra_checks(ck, tier, rng):
+    # the letter-class table of Model/NamesUni.v, re-derived from the running Python
+    src = open(os.path.join(COQ, 'Model', 'NamesUni.v')).read()
+    want = c04_uni.table_text()
+    fails = [] if want in src else [('Model/NamesUni.v', 'the table in the file differs from the one derived from this Python (str.isalpha/isupper/islower); regenerate it with harness/props/c04_uni.py', False)]
+    yield {'name': 'letter_class_table', 'evaluations': sum(hi - lo + 1 for lo, hi in c04_uni.DOMAIN), 'failures': fails,
+           'info': '%d runs over %d code points; %d cased-but-not-alphabetic code points excluded: %s' % (
+               len(c04_uni.entries()), sum(hi - lo + 1 for lo, hi in c04_uni.DOMAIN), len(c04_uni.excluded_list()),
+               ' '.join('U+%04X' % c for c in c04_uni.excluded_list()))}
     # the separator class of BIBTEX_SPACE_RE, one code point at a time, all of Unicode
     from pybtex.bibtex.utils import BIBTEX_SPACE_RE
     model_ws = set(list(range(9, 14)) + list(range(28, 33)) + [133, 160, 5760] + list(range(8192, 8203)) + [8232, 8233, 8239, 8287, 12288])
